@@ -24,6 +24,7 @@ from props import c05_gen
 common.repo_on_path()
 
 DEADLINE = 20.0
+WAIT_REFUSAL = 10.0
 
 
 class RealDaemon:
@@ -57,6 +58,13 @@ class RealDaemon:
                     return threading.Lock()
                 return spec["token"]
 
+            def boom(self, kind, token):
+                from props import c05_rig
+                rd.execs.append(token)
+                e = ValueError("boom %d" % token)
+                e.extra = c05_rig.poison_value(kind)
+                raise e
+
             @server.oneway
             def runoneway(self, spec):
                 rd.execs.append(spec["token"])
@@ -80,7 +88,7 @@ class RealDaemon:
                 self.loop_returned = True
             except BaseException as x:
                 self.loop_exc = "%s: %s" % (type(x).__name__, str(x)[:200])
-        self.thread = threading.Thread(target=loop, daemon=True)
+        self.thread = threading.Thread(target=loop, daemon=True, name="c05real-loop")
         self.thread.start()
 
     def uri(self):
@@ -126,6 +134,9 @@ class RealDaemon:
             else:
                 self.daemon.close()
             self.thread.join(timeout=3)
+            if self.thread.is_alive():
+                from props import c05_rig
+                c05_rig.kill_spinners(("Pyro-Worker", "c05real-loop"))      # a handler that spins would burn a CPU for the rest of the run
         finally:
             (config.SERVERTYPE, config.THREADPOOL_SIZE, config.THREADPOOL_SIZE_MIN, config.COMMTIMEOUT,
              config.MAX_MESSAGE_SIZE, config.POLLTIMEOUT) = self.saved
@@ -159,8 +170,10 @@ def read_msg(s, rd=None):
 
 
 def hostile(rd, act):
-    """act = {"shake": bool, "hex": bytes hex, "close": "now"|"drain"}"""
+    """act = {"shake": bool, "hex": bytes hex, "close": "now"|"drain"|"rst"|"wait"}; returns False if a "wait"ing peer (it stays
+    connected and silent after an invalid prefix) got neither an answer nor a close within WAIT_REFUSAL seconds"""
     s = rd.raw()
+    reacted = True
     try:
         if act["shake"]:
             s.sendall(srvkit.render_msg(c05_gen.handshake_msg(act.get("ser", 2), 9)))
@@ -175,6 +188,20 @@ def hostile(rd, act):
                     pass
             except OSError:
                 pass
+        elif act["close"] == "wait":
+            t0 = time.time()
+            s.settimeout(0.25)
+            reacted = False
+            while time.time() - t0 < WAIT_REFUSAL and not rd.loop_exc:
+                try:
+                    s.recv(65536)           # an answer (CONNECTFAIL) or b"" (closed): either way the daemon did not wait for more
+                    reacted = True
+                    break
+                except socket.timeout:
+                    continue
+                except OSError:
+                    reacted = True
+                    break
         elif act["close"] == "rst":
             # hard reset instead of an orderly close (TCP only): the daemon's socket ends up in state CLOSE, where even
             # getpeername() fails; give the daemon a moment to start reading first so that the reset meets a recv()
@@ -184,6 +211,7 @@ def hostile(rd, act):
         pass
     finally:
         s.close()
+    return reacted
 
 
 def gen_actions(rng, n, tcp=False):
@@ -192,15 +220,19 @@ def gen_actions(rng, n, tcp=False):
     for _ in range(n):
         shake = rng.random() < 0.5
         ser = rng.choice([1, 2, 3, 4])
+        ann = rng.choice([(), ("ABCD",), ("ABCD", "WXYZ")])
+        if rng.random() < 0.12:
+            acts.append({"shake": shake, "ser": ser, "hex": common.hx(c05_gen.invalid_prefix(rng)), "close": "wait", "kind": "silentprefix"})
+            continue
         if shake:
             spec = g.g.method(False)
             spec.pop("track", None)
             spec.pop("untrack", None)
             if spec.get("exc", "generic") != "generic":
                 spec["exc"] = "generic"
-            base = c05_gen.base_of(c05_gen.call_msg(ser, rng.randint(0, 65535), spec))
+            base = c05_gen.base_of(c05_gen.call_msg(ser, rng.randint(0, 65535), spec, ann=ann))
         else:
-            base = c05_gen.base_of(c05_gen.handshake_msg(ser, rng.randint(0, 65535)))
+            base = c05_gen.base_of(c05_gen.handshake_msg(ser, rng.randint(0, 65535), ann=ann))
         x = rng.random()
         if x < 0.15:
             kind, data = "valid", base["data"]
@@ -214,6 +246,10 @@ def gen_actions(rng, n, tcp=False):
     return acts
 
 
+NO_REFUSAL = ("%s server (real sockets): a peer sent %d bytes that already fail the header check and stayed connected; within "
+              + str(int(WAIT_REFUSAL)) + " s it was neither answered nor closed: the daemon waits for more bytes from it")
+
+
 def scenario(ctx, servertype, commtimeout, poolsize, acts1, acts2, case, tcp=False):
     """-> list of (signature, description)"""
     fails = []
@@ -223,8 +259,24 @@ def scenario(ctx, servertype, commtimeout, poolsize, acts1, acts2, case, tcp=Fal
         tok = [100]
 
         def witness_round():
+            from Pyro5 import errors
             for i, p in enumerate(w):
                 tok[0] += 1
+                kind = ["slots", "getstate", "deep", None, None][tok[0] % 5]
+                if kind:
+                    # a method raising an exception that cannot be serialised (in an unusual way): the caller still gets an error
+                    try:
+                        r = p.boom(kind, tok[0])
+                        r = "returned %r" % (r,)
+                    except errors.CommunicationError as x:
+                        r = "connection trouble %s" % type(x).__name__
+                    except Exception:
+                        r = None
+                    if r is not None:
+                        fails.append(("real:witness-reply:" + servertype, "%s server (real sockets): witness %d called boom(%r), a method raising "
+                                      "an unserialisable exception, and instead of an error reply: %s" % (servertype, i, kind, r)))
+                        return False
+                    tok[0] += 1
                 try:
                     r = p.run({"token": tok[0]})
                 except Exception as x:
@@ -240,7 +292,9 @@ def scenario(ctx, servertype, commtimeout, poolsize, acts1, acts2, case, tcp=Fal
         for k, a in enumerate(acts1):
             if rd.loop_exc:
                 break
-            hostile(rd, a)
+            if not hostile(rd, a):
+                fails.append(("real:no-refusal-for-invalid-prefix:" + servertype, NO_REFUSAL % (servertype, len(common.unhx(a["hex"])))))
+                return fails
             ctx.count("real:" + a["kind"].split(":")[0])
             if k % 8 == 7 and not witness_round():
                 return fails
@@ -255,7 +309,9 @@ def scenario(ctx, servertype, commtimeout, poolsize, acts1, acts2, case, tcp=Fal
         for k, a in enumerate(acts2):
             if rd.loop_exc:
                 break
-            hostile(rd, a)
+            if not hostile(rd, a):
+                fails.append(("real:no-refusal-for-invalid-prefix:" + servertype, NO_REFUSAL % (servertype, len(common.unhx(a["hex"])))))
+                return fails
             ctx.count("real:denied" if servertype == "thread" else "real:" + a["kind"].split(":")[0])
         for s in squat:
             s.close()
